@@ -52,6 +52,13 @@ claim("C16", "static analysis: who-may-call ownership (one numeral reader: strco
       "Decides that every place that turns text into a number uses the same reader, that malformed numerals are compile errors, that %q is not rendered by Go's fmt, that every strftime layout is made of real layout tokens with the directive's C-locale meaning, and that os.date/os.time use the same field names, components and zone. It does not decide escape decoding, long brackets or shortest-round-trip printing (value properties).",
       BASE + "C-locale strftime meanings and Go reference-time tokens written out in the checker.", "DESIGN.md §3 C16")
 
+claim("C14", "static analysis: exhaustiveness of the pattern VM dispatch and of the pattern compiler's type switch against the constants/types the parser produces, panic-operand typing over package pm, guard dominance and argument identity for the recursion cap, loop-progress analysis of Find's scan index over phi edges, taint of the subject slice (no write, no foreign callee), consumer set of the unsafe string view",
+      "Decides that no pattern construct or opcode is left without a handler, that pm only panics with *pm.Error and the string library raises it, that the matcher's recursion is capped on every recursive call, that the scan position strictly advances, and that the subject bytes (aliasing an immutable Lua string) are never written. It does not decide match extents/captures nor run-time slice panics inside the matcher.",
+      BASE + "io.Writer.Write does not modify its argument.", "DESIGN.md §3 C14")
+claim("C15", "static analysis: disallowed-callee / disallowed-conversion rule over the string library (rune-aware APIs, range over string, rune conversions), verb-set analysis by path conditions (c never reaches fmt with an integer), table agreement of the math library map with libm names including argument order and result order (structural value keys)",
+      "Decides that string functions cannot treat Lua strings as UTF-8, that %c writes one byte, that each libm-named math entry calls exactly that function with its arguments and results in order, and that % and math.mod share one implementation. It does not decide index clamping, printf flag rendering or random's range.",
+      BASE + "Go's math package returns the IEEE result of each function.", "DESIGN.md §3 C15")
+
 for pid in ["C%02d" % i for i in range(2, 21)]:
     if pid not in P:
         na(pid, "check not built yet in this session (planned rules: DESIGN.md §3 %s); not claimed until its rules run clean" % pid)
